@@ -23,7 +23,7 @@ func init() {
 			"crossed with crossorigin / sandbox admitted by AllowAttrs or not and with every subset of the fourteen sandbox values of size <=2 plus the full set (thorough: all 16384 subsets on the single-attribute layer). " +
 			"Oracle: each listed media element emitted with >=1 attribute has >=1 crossorigin and all of them equal anonymous; each iframe emitted with attributes has sandbox and every sandbox attribute's tokens are a duplicate-free subset of the policy's list. non-trivial = a crossorigin / sandbox attribute was added or rewritten.",
 		Assumptions: []string{"sandbox tokens are split on ASCII whitespace by the oracle"},
-		QuickBudget:  50, ThoroughBudget: 800,
+		QuickBudget: 50, ThoroughBudget: 800,
 		Run:    runC12,
 		Replay: replayC12,
 	})
@@ -126,7 +126,8 @@ var c12MediaAttrs = []string{` crossorigin`, ` crossorigin=""`, ` crossorigin=an
 
 var c12FrameAttrs = []string{` sandbox`, ` sandbox="allow-forms"`, ` sandbox="allow-forms allow-scripts"`, ` sandbox="allow-forms&#9;allow-forms"`,
 	` sandbox="allow-popups bogus"`, ` sandbox="ALLOW-FORMS&#10;allow-scripts"`, ` sandbox="allow-scripts allow-forms allow-scripts"`,
-	` sandbox="allow-downloads allow-top-navigation-by-user-activation allow-same-origin"`, ` src=x`, ` title=t`, ` onclick=x`}
+	` sandbox="allow-downloads allow-top-navigation-by-user-activation allow-same-origin"`, ` src=x`, ` title=t`, ` onclick=x`,
+	` sandbox="` + strings.Join(spec.SandboxNames, " ") + `"`}
 
 func runC12(c *run.Ctx) {
 	media, frames := c12Specs(c)
